@@ -265,6 +265,61 @@ func genC12LongHistory(seed uint64, r *rng, tier string) *Scenario {
 		return sc
 	}
 	var pool []Op
+	if r.chance(1, 2) {
+		// many SCANS rather than many calls: multi-match calls of the kinds that recycle one match object
+		// (bool-only, FindAll*, Replace) on an input with a thousand matches or more, so that 2^16 scans go
+		// through one pooled runner within a few dozen calls
+		sc.Mode = "long-history-scans"
+		cfg.PoolMode, cfg.MissProb, cfg.DropProb = vsim.PoolLIFO, 0, 0
+		sc.Res, pats = sc.Res[:1], pats[:1]
+		var unit string
+		for _, f := range pats[0].Frags {
+			if f == "" {
+				continue
+			}
+			if v := pristine(sc.Res[0], &Op{Kind: OpMatchString, In: lit(f), N: -1, TimeoutNs: -1}, scriptOpCap); v.res == "true" {
+				unit = f + " "
+				break
+			}
+		}
+		if unit == "" {
+			return sc
+		}
+		rep := 800 + r.n(1500)
+		long := InputSpec{Unit: unit, Rep: rep}
+		cl := Client{Cost: int64(200 + r.n(300))}
+		total := 0
+		for total < 66000+r.n(3000) && len(cl.Ops) < 400 {
+			var op Op
+			switch r.n(6) {
+			case 0:
+				op = Op{Kind: OpMatchString, Re: 0, In: lit(unit), N: -1, TimeoutNs: -1}
+				total++
+			case 1:
+				op = Op{Kind: OpMatchString, Re: 0, In: lit("#"), N: -1, TimeoutNs: -1}
+				total++
+			case 2:
+				op = Op{Kind: OpReplace, Re: 0, In: long, N: -1, Repl: pickRepl(r), TimeoutNs: -1}
+				total += rep + 1
+			default:
+				op = Op{Kind: []int{OpFindAllString, OpFindAllRunes}[r.n(2)], Re: 0, In: long, N: -1, TimeoutNs: -1}
+				total += rep + 1
+			}
+			if v := pristine(sc.Res[0], &op, scriptOpCap); v.capped {
+				return sc
+			}
+			cl.Ops = append(cl.Ops, op)
+		}
+		// ... and then the calls a stale match object would show in
+		for k := 0; k < 6; k++ {
+			cl.Ops = append(cl.Ops, Op{Kind: []int{OpMatchString, OpFindAllString, OpReplace}[r.n(3)], Re: 0, In: lit([]string{unit, "#", unit + unit + "#", "# " + unit}[r.n(4)]), N: -1, Repl: pickRepl(r), TimeoutNs: -1})
+		}
+		sc.Clients = []Client{cl}
+		cfg.Alphabet = alphabetOf(sc)
+		sc.Cfg = cfg
+		nameOps(sc)
+		return sc
+	}
 	for k := 0; k < 40 && len(pool) < 12; k++ {
 		re := r.n(len(sc.Res))
 		op := genOp(r, re, pats[re], false)
@@ -426,7 +481,7 @@ func genC12(seed uint64, tier string) *Scenario {
 	if r.chance(1, 10) {
 		return genC12Siblings(seed, r)
 	}
-	if r.chance(1, 30) {
+	if r.chance(1, 20) {
 		return genC12LongHistory(seed, r, tier)
 	}
 	sc := &Scenario{Prop: "C12", Seed: seed, SchedSeed: mix64(seed, 12), OpStepCap: scriptOpCap}
